@@ -165,6 +165,24 @@ inductive Mode
   | afterBody | inFrameset | afterFrameset | afterAfterBody | afterAfterFrameset
 deriving DecidableEq, Repr
 
+/-- steps 4–15 for one *node*: `some m` = "switch the insertion mode to m and return" (`m = none`:
+the current template insertion mode does not exist — excluded by the standard), `none` = go on
+with step 16.  `tm` = the current template insertion mode. -/
+def resetStep (node : Name) (last : Bool) (tm : Option Mode) (headPointerNull : Bool) : Option (Option Mode) :=
+  if (node.isHtml "td" || node.isHtml "th") && !last then some (some .inCell)
+  else if node.isHtml "tr" then some (some .inRow)
+  else if node.isHtml "tbody" || node.isHtml "thead" || node.isHtml "tfoot" then some (some .inTableBody)
+  else if node.isHtml "caption" then some (some .inCaption)
+  else if node.isHtml "colgroup" then some (some .inColumnGroup)
+  else if node.isHtml "table" then some (some .inTable)
+  else if node.isHtml "template" then some tm
+  else if node.isHtml "head" && !last then some (some .inHead)
+  else if node.isHtml "body" then some (some .inBody)
+  else if node.isHtml "frameset" then some (some .inFrameset)
+  else if node.isHtml "html" then (if headPointerNull then some (some .beforeHead) else some (some .afterHead))
+  else if last then some (some .inBody)
+  else none
+
 /-- `stack`: current node first; `context`: the fragment case's context element; `currentTemplateMode`:
 top of the stack of template insertion modes (the standard guarantees it exists whenever a
 `template` element is open; `none` models the impossible case) -/
@@ -172,23 +190,12 @@ def resetInsertionMode (context : Option Name) (headPointerNull : Bool) (current
     List Name → Option Mode
   | [] => some .inBody     -- not reachable in the standard (the stack holds `html`); html5ever answers "in body"
   | node0 :: rest =>
+    -- step 3: `last`, and the context element in the fragment case
     let last := rest.isEmpty
-    let node := match last, context with
-      | true, some c => c
-      | _, _ => node0
-    if (node.isHtml "td" || node.isHtml "th") && !last then some .inCell
-    else if node.isHtml "tr" then some .inRow
-    else if node.isHtml "tbody" || node.isHtml "thead" || node.isHtml "tfoot" then some .inTableBody
-    else if node.isHtml "caption" then some .inCaption
-    else if node.isHtml "colgroup" then some .inColumnGroup
-    else if node.isHtml "table" then some .inTable
-    else if node.isHtml "template" then currentTemplateMode
-    else if node.isHtml "head" && !last then some .inHead
-    else if node.isHtml "body" then some .inBody
-    else if node.isHtml "frameset" then some .inFrameset
-    else if node.isHtml "html" then (if headPointerNull then some .beforeHead else some .afterHead)
-    else if last then some .inBody
-    else resetInsertionMode context headPointerNull currentTemplateMode rest
+    let node := if last then context.getD node0 else node0
+    -- steps 4–15, else steps 16–17
+    (resetStep node last currentTemplateMode headPointerNull).getD
+      (resetInsertionMode context headPointerNull currentTemplateMode rest)
 
 /-! ### (e) §13.2.6 the tree construction dispatcher
 
